@@ -1338,6 +1338,14 @@ def normal_form(ck, fi):
                 shared |= {nm for x in nl for nm in x.names}
                 changed = True
         changed = _nf_comprehension_loops(node, resolves) or changed
+        # a local closure that the front end left because it was handed to helpers, and that is only called now that
+        # those helpers are written out, is written out as well
+        callees = {id(c.func) for c in ast.walk(node) if isinstance(c, ast.Call)}
+        for sub in list(out.nested.values()):
+            uses = [x for x in ast.walk(node) if isinstance(x, ast.Name) and x.id == sub.node.name]
+            if uses and all(id(x) in callees for x in uses) and any(resolves(c) for c in _own_nodes(node)
+                                                                     if isinstance(c, ast.Call) and isinstance(c.func, ast.Name) and c.func.id == sub.node.name):
+                changed = True
         if changed:
             out.nested = {}
             fi.module._index_nested(out)
@@ -2378,6 +2386,42 @@ def _pairing_ok(mr, ret):
     return False
 
 
+def _single_is_bulk_of_one(ck):
+    """Does the tree define the single lookup as the bulk query for one key — `get_memento(k)` being
+    `self.get_mementos([k])[0]`, defined once?"""
+    cache = ck.__dict__.setdefault("_single_is_bulk", [])
+    if cache:
+        return cache[0]
+    defs = [c.methods["get_memento"] for m in ck.repo.modules.values() for c in m.all_classes() if "get_memento" in c.methods]
+    ok = len(defs) == 1 and len(defs[0].params) == 2
+    if ok:
+        rets = [r for r in ast.walk(defs[0].node) if isinstance(r, ast.Return)]
+        body = [st for st in defs[0].node.body if not (isinstance(st, ast.Expr) and isinstance(st.value, ast.Constant))]
+        v = rets[0].value if len(rets) == 1 and len(body) == 1 and body[0] is rets[0] else None
+        ok = isinstance(v, ast.Subscript) and isinstance(v.slice, ast.Constant) and v.slice.value == 0 and type(v.slice.value) is int \
+            and isinstance(v.value, ast.Call) and A.call_attr(v.value) == "get_mementos" and A.dotted(A.call_recv(v.value)) == defs[0].params[0] \
+            and len(v.value.args) == 1 and not v.value.keywords and single_item(v.value.args[0]) is not None \
+            and A.dotted(single_item(v.value.args[0])) == defs[0].params[1]
+    cache.append(bool(ok))
+    return cache[0]
+
+
+def single_lookups(ck, fa):
+    """[(expression that yields the stored memento of ONE call, the call node the CFG evaluates, receiver, key)]:
+    `S.get_memento(k)` and — where the tree defines the former as exactly that — `S.get_mementos([k])[0]`."""
+    out = []
+    for c in fa.calls("get_memento"):
+        if fa.nodes(c) and len(c.args) + len(c.keywords) == 1 and A.call_recv(c) is not None:
+            out.append((c, c, A.call_recv(c), (list(c.args) + [k.value for k in c.keywords])[0]))
+    if _single_is_bulk_of_one(ck):
+        for n in A.walk_local(fa.node):
+            if isinstance(n, ast.Subscript) and isinstance(n.ctx, ast.Load) and isinstance(n.slice, ast.Constant) and n.slice.value == 0 and type(n.slice.value) is int \
+                    and isinstance(n.value, ast.Call) and A.call_attr(n.value) == "get_mementos" and fa.nodes(n.value) and A.call_recv(n.value) is not None \
+                    and len(n.value.args) == 1 and not n.value.keywords and single_item(n.value.args[0]) is not None:
+                out.append((n, n.value, A.call_recv(n.value), single_item(n.value.args[0])))
+    return out
+
+
 def is_valid_flag(fa, e, at, _depth=0):
     """Does `e` hold the `valid_result` verdict of an ExistingMementoResult (field read, or the second component
     of one unpacked into two names)?"""
@@ -2470,7 +2514,7 @@ def _check_alignment(ck, R2, R4, ctx, br):
     ck.ob(R4, br.key(loop_ast, "not-served-runs"), ok10, "a non-served element runs through memento_run_local (per-call mutex, re-check)" if ok10 else
           "an element without a valid served result can skip memento_run_local", br.where(loop_ast))
     rl = nfa(ck, RL + ".memento_run_local")
-    lk = [c for c in rl.calls("get_memento") if rl.nodes(c)]
+    lk = [c for (_e, c, _r, _k) in single_lookups(ck, rl)]
     okl = bool(lk) and all(rl.unconditional(c) for c in lk) and all(rl.cfg.must_pass(rl.nodes_all(lk), i) for i in rl.nodes_all(rl.calls("_filter_call")))
     ck.ob(R4, rl.key(None, "recheck-unconditional"), okl, "memento_run_local looks the call up again, unconditionally, before running the body" if okl else
           "memento_run_local can skip its own store lookup (it trusts an earlier bulk query): an element memoized by an earlier element of the "
